@@ -177,6 +177,12 @@ func scenarios(thorough bool) []*scenario {
 		long := "struct A {\nint32 x;\n}\n// " + strings.Repeat("c", n) + "\nmessage M {\n1 -> string s;\n}\nenum E {\nOne = 1;\n}\n"
 		out = append(out, fmtFileScenario(fmt.Sprintf("valid/comment-line-of-%d-bytes", n), long, false))
 	}
+	// files larger than one reader buffer (4096 bytes) written compactly, one definition per line: formatting makes them
+	// longer, so output position overtakes input position early (in-place tricks on the source buffer break here)
+	for _, defs := range []int{60, 120, 1200} {
+		text := textgen.CompactLarge(defs)
+		out = append(out, fmtFileScenario(fmt.Sprintf("valid/compact-file-of-%d-bytes", len(text)), text, false))
+	}
 	if fp := formatFixpoint(schemaValidRaw); fp != "" {
 		out = append(out, fmtFileScenario("valid/already-formatted", fp, false))
 	}
